@@ -165,6 +165,14 @@ func (w *serverWorld) handle(ctx context.Context, p *payloads.ActivateRequestPay
 			v := fmt.Sprintf("ph-%s-%d", id, w.setCount)
 			kmipserver.SetIdPlaceholder(ctx, v)
 			w.record(hEvent{Token: tok, ID: id, Kind: "set", Value: v})
+		case a == "nq":
+			// a request issued from inside the handler, with the handler's own context, on the same executor: it is
+			// another request message and starts with an empty placeholder of its own
+			conn := connOf(id)
+			rest := strings.ReplaceAll(strings.TrimPrefix(id, conn+"."), ".", "_")
+			inner := buildRequest(&ReqSc{Version: 4, Items: []ItemSc{{Tok: "pr"}, {Tok: "pw"}, {Tok: "pr"}}}, conn+".n"+rest)
+			w.s.Fault("nested-request")
+			_ = w.exec.HandleRequest(ctx, inner)
 		case a == "pz":
 			// an empty value is a value too
 			kmipserver.SetIdPlaceholder(ctx, "")
